@@ -412,4 +412,31 @@ theorem C06_independence_observing (w : World γ) (o : Flags) (hobs : ObservingA
       sinkBytes (run w (Rewriter.new w g cfg) chunks).1.sink := by
   rw [C01_passthrough (World.withObs w o) hobs' _ cfg chunks hok', C01_passthrough w hobs g cfg chunks hok]
 
+/-! ### the code's current table; non-vacuity -/
+
+theorem C06_emitsChecked_gen : EmitsChecked Gen.Syntax.table = true := by decide +kernel
+
+/-- **C06_independence_partial_gen.** At the regenerated table: every tag configuration, every clean
+always-lexing controller, every observer flag set, both modes, every chunking. -/
+theorem C06_independence_partial_gen (w : World γ) (htbl : w.tbl = Gen.Syntax.table) (o : Flags)
+    (hc : CtlClean w.ctl) (hst : StickyCtl w.ctl) (g : γ) (cfg : Settings) (chunks : List Bytes) :
+    let R' := run (World.withObs w o) (Rewriter.new (World.withObs w o) (g, w.ctl.initialFlags g) cfg) chunks
+    let R := run w (Rewriter.new w g cfg) chunks
+    R'.2 = R.2 ∧ ((∀ x ∈ R.2, x = CallRes.ok) → R'.1.stream.disp.ctl.1 = R.1.stream.disp.ctl) :=
+  C06_independence_partial_no_panic w o _ _ _ _ (by rw [htbl]; exact C15.C15_gen) (by rw [htbl]; exact C15.C15_cert_gen)
+    (by rw [htbl]; exact C15.C15_relexSide_gen) hc hst (by rw [htbl]; exact C06_emitsChecked_gen) g cfg chunks
+
+/-- a controller with a document-level text handler (constant flags containing TEXT) is always-lexing -/
+theorem constCtl_sticky (f : Nat) (h : (Flags.ofNat f).sticky = true) : StickyCtl (constCtl f) where
+  init := fun _ => h
+  start := by intro g n ns f' hf; simp [constCtl] at hf; subst hf; exact h
+  aux := by intro g i f' hf; simp [constCtl] at hf; subst hf; exact h
+  end_ := fun _ _ => h
+
+example : StickyCtl (constCtl 1) := constCtl_sticky 1 (by decide)
+
+/-- the two runs differ in what the dispatcher captures: with the observer `comments` (2) the text-only
+controller's run hands comment tokens to the (filtering) controller — yet `H` sees the same events -/
+example : ((Flags.ofNat 1).join (Flags.ofNat 2)).comments = true ∧ (Flags.ofNat 1).comments = false := by decide
+
 end LolHtml.Thm.C06
